@@ -209,6 +209,15 @@ func evalC11(sc *Scenario, sim *Sim) ([]Violation, bool, string) {
 			viol = append(viol, Violation{Prop: "C11", Oracle: "frame-condition", Sig: "C11/frame/" + what, Msg: msg,
 				Detail: detail + fmt.Sprintf("\ntarget %d: %s (rule index %d, chain link %d)\nrules file before:\n%q", ti, tg.Arg, tg.Rule, tg.Link, clip2(orig, 2500))})
 		}
+		ambiguous := false
+		for _, f := range p.Features {
+			if f == "leftover-copy-of-rules-file" {
+				ambiguous = true // two files match the rule's prefix: refusing is what C16 demands
+			}
+		}
+		if u.Exit != 0 && ambiguous && bytes.Equal(got, orig) {
+			continue
+		}
 		if u.Exit != 0 {
 			if !bytes.Equal(got, orig) {
 				add("failed-but-wrote", fmt.Sprintf("update failed (exit %d) and changed the rules file", u.Exit), string(u.Stderr))
